@@ -157,13 +157,13 @@ def _adapter_obj(repo, cname, n, kinds=None, extra=None, ctor=None):
     kinds = kinds or ["ram"] * n
     o.fields.update(
         data=[(T(i), P(i, kinds[i])) for i in range(n)],
-        name=cname,
-        _name=cname,
         logger=Logger(label="logger"),
-        _total_mem=Sym("mem0"),
-        _input_info=Obj(label="in_info", fields={"grid": Sym("grid"), "units": Sym("u_in")}),
-        _output_info=Obj(label="out_info", fields={"grid": Sym("grid"), "units": Sym("u_out")}),
     )
+    from ..absbase import set_backed
+    set_backed(repo, o, "name", cname)
+    set_backed(repo, o, "in_info", Obj(label="in_info", fields={"grid": Sym("grid"), "units": Sym("u_in")}))
+    set_backed(repo, o, "info", Obj(label="out_info", fields={"grid": Sym("grid"), "units": Sym("u_out")}))
+    o.fields[_total_attr(repo, cname)] = Sym("mem0")
     if extra:
         extra = dict(extra)
         if PREV in extra:
@@ -543,13 +543,37 @@ def r21_evict(repo, sink, tier="quick"):
                    ok="a pull from inside the notification cuts the history like any other pull", bad=worst or "")
 
 
+def _total_attr(repo, cname):
+    """Attribute holding the RAM total of a spilling slot (role discovery, see spill2.spill_roles)."""
+    from .spill2 import spill_roles
+    return spill_roles(repo, cname)["total"]
+
+
+def _registry_attr(repo):
+    """Attribute in which an Output keeps its registered end points and their last requests: the dict that pinged() extends."""
+    cached = getattr(repo, "_registry_attr", None)
+    if cached is None:
+        from ..absbase import seed_from_init
+        c = repo.cls("Output")
+        o = Obj(cls=c, label="Output")
+        seed_from_init(FinamInterp(repo), c, o, {"name": "out", "info": None, "static": False})
+        o.fields["logger"] = Logger(label="logger")
+        probe = Obj(label="probe", markers={"IInput"}, fields={"name": "probe"})
+        FinamInterp(repo).run(repo.resolve(c, "pinged", "method"), [probe], self_obj=o)
+        names = [k for k, v in o.fields.items() if isinstance(v, dict) and any(x is probe for x in v)]
+        if len(names) != 1:
+            raise AnalysisError(f"cannot identify the end-point registry of Output (candidates {names})")
+        cached = repo._registry_attr = names[0]
+    return cached
+
+
 def _run_keep(it, f, o, args, conn_key=False):
     obj = _fresh(o)
     it.effects = []
     ret = it.run(f, args, self_obj=obj)
-    out = (ret, list(obj.fields["data"]), list(it.effects), obj.fields.get("_total_mem"))
+    out = (ret, list(obj.fields["data"]), list(it.effects), obj.fields.get(_total_attr(it.repo, obj.cls.name)))
     if conn_key:
-        out = out + (dict(obj.fields["_connected_inputs"]),)
+        out = out + (dict(obj.fields[_registry_attr(it.repo)]),)
     return out
 
 
@@ -558,14 +582,50 @@ def _output_obj(repo, n, kinds, conn, static=False):
     c = repo.cls("Output")
     o = Obj(cls=c, label="Output")
     seed_from_init(FinamInterp(repo), c, o, {"name": "out", "info": None, "static": static})
-    o.fields.update(
-        data=[(T(i) if not static else None, P(i, kinds[i])) for i in range(n)],
-        name="out", _name="out", logger=Logger(label="logger"), _total_mem=Sym("mem0"),
-        _output_info=Obj(label="info", fields={"units": Sym("u_out")}),
-        _connected_inputs=conn, _out_infos_exchanged=len(conn), _static=static,
-        _targets=[Obj(label="t")], _time=T(n - 1) if n else None, _mem_counter=Sym("counter"),
-    )
+    from ..absbase import set_backed
+    from .spill2 import spill_roles
+    it = FinamInterp(repo)
+    o.fields.update(data=[(T(i) if not static else None, P(i, kinds[i])) for i in range(n)], logger=Logger(label="logger"))
+    set_backed(repo, o, "name", "out")
+    # linked and registered by the real code, then the scenario's last requests are put into the registry
+    from .exchange import ExchInterp, xinfo
+    it = ExchInterp(repo)
+    it.run(repo.resolve(c, "push_info", "method"), [xinfo("info", Sym("grid"), None, Sym("u_out"))], self_obj=o)
+    it.run(repo.resolve(c, "add_target", "method"), [Obj(label="t", markers={"IInput", "IAdapter"})], self_obj=o)
+    reg = o.fields[_registry_attr(repo)]
+    for k, v in conn.items():
+        reg[k] = v
+    # every registered end point has exchanged its info
+    for k2, v2 in list(o.fields.items()):
+        if isinstance(v2, int) and not isinstance(v2, bool) and k2 == _exchange_counter(repo):
+            o.fields[k2] = len(conn)
+    set_backed(repo, o, "time", T(n - 1) if n else None)
+    roles = spill_roles(repo, "Output")
+    o.fields[roles["total"]] = Sym("mem0")
+    if roles["counter"] is not None:
+        o.fields[roles["counter"]] = Sym("counter")
     return o
+
+
+def _exchange_counter(repo):
+    """Attribute counting completed info exchanges of an Output: the integer that a successful get_info increments."""
+    cached = getattr(repo, "_exchange_counter_attr", None)
+    if cached is None:
+        from ..absbase import seed_from_init
+        from .exchange import ExchInterp, G1, T1, U1, xinfo
+        c = repo.cls("Output")
+        o = Obj(cls=c, label="Output")
+        it = ExchInterp(repo)
+        seed_from_init(it, c, o, {"name": "out", "info": None, "static": False})
+        o.fields["logger"] = Logger(label="logger")
+        it.run(repo.resolve(c, "push_info", "method"), [xinfo("own", G1, T1, U1)], self_obj=o)
+        before = {k: v for k, v in o.fields.items() if isinstance(v, int) and not isinstance(v, bool)}
+        it.run(repo.resolve(c, "get_info", "method"), [xinfo("req", G1, T1, U1)], self_obj=o)
+        names = [k for k, v in before.items() if o.fields.get(k) == v + 1]
+        if len(names) != 1:
+            raise AnalysisError(f"cannot identify the exchange counter of Output (candidates {names})")
+        cached = repo._exchange_counter_attr = names[0]
+    return cached
 
 
 def _judge_evict(data, effects, mem, keep, kinds, n):
